@@ -383,6 +383,58 @@ def gen_script(rng, max_ops, profile):
             for j in range(njobs):
                 if rng.chance(1, 2):
                     lines.append('runjob %d %d' % (j, rng.below(2)))
+        elif choice == 'sparse':
+            # one archetype with several version chunks, every job caught up, then a few scattered writes: the next filtered run
+            # sees non-adjacent blocks (block jumps, task starts on block boundaries, blocks straddling storage chunks)
+            if depth or not njobs or not vc or vc > 8 or 0 not in pals:
+                continue
+            hs = [h for h in live_handles() if 0 in st.comps.get(h, ()) and not st.shared.get(h)]
+            cs = sorted(st.comps[rng.pick(hs)]) if hs and rng.chance(1, 2) else sorted(closure([0] + ([1] if 1 in pals and rng.chance(1, 2) else [])))
+            same = [k for k in live_handles() if sorted(st.comps.get(k, ())) == cs and not st.shared.get(k) and k not in st.marked]
+            target = rng.range(2 * vc + 1, 6 * vc + 2)
+            for _ in range(max(0, target - len(same))):
+                lines.append('create 0 %s' % ' '.join(map(str, cs)))
+                st.comps[st.n] = set(cs)
+                st.shared[st.n] = set()
+                same.append(st.n)
+                st.n += 1
+            for j in range(njobs):
+                lines.append('runjob %d 0' % j)
+            for _ in range(rng.range(2, 3)):
+                h = rng.pick(same)
+                c = rng.pick([c for c in cs if c in (0, 1)])
+                lines.append(rng.pick(['set #%d %d %d' % (h, c, value()), 'markdirty #%d %d' % (h, c), 'getmut #%d %d' % (h, c)]))
+            for j in range(njobs):
+                if rng.chance(2, 3):
+                    mode = rng.below(2)
+                    lines.append('runjob %d %d%s' % (j, mode, (' %d' % rng.range(1, 6)) if mode else ''))
+        elif choice == 'recycle':
+            # a destroyed entity's id is reused at once; under lock one thread then records a command through the stale handle
+            # right next to commands on the new owner of that id
+            hs = [h for h in live_handles() if not st.shared.get(h) and h not in st.marked]
+            if depth or not hs:
+                continue
+            a = rng.pick(hs)
+            cs = sorted(st.comps[a])
+            lines.append('destroynow 0 #%d' % a)
+            st.comps.pop(a, None)
+            b = st.n
+            lines.append(('create 0 %s' % ' '.join(map(str, cs))).rstrip())
+            st.comps[b] = closure(cs)
+            st.shared[b] = set()
+            st.n += 1
+            cand = [p_ for p_ in pals if p_ not in st.comps[b]]
+            stat = [p_ for p_ in pals if p_ < 8]
+            if not cand or not stat:
+                continue
+            p_ = rng.pick(cand)
+            q = rng.pick(stat)
+            live_cmd = '%s 0 #%d %d %d' % ('assign' if p_ < 8 else 'assignid', b, p_, value())
+            stale_cmd = rng.pick(['destroynow 0 #%d' % a, 'remove 0 #%d %d' % (a, q), 'destroy 0 #%d' % a])
+            lines.append('lock')
+            lines += [live_cmd, stale_cmd] if rng.chance(1, 2) else [stale_cmd, live_cmd]
+            lines.append('unlock')
+            st.comps[b] = closure(set(st.comps[b]) | {p_})
         elif choice == 'runjob':
             if depth == 0 and njobs:
                 mode = rng.below(2)
@@ -447,7 +499,7 @@ PROFILE_BASIC = {
     'threads': [0, 0, 1, 2, 3], 'pals': [0, 1, 2, 3, 4, 5, 6, 7], 'chunkcap': [0, 2, 3, 4, 8],
     'verchunk': [1, 2, 3, 5, 1024], 'deps': 0, 'shared': [], 'createarch': True,
     'weights': {'create': 26, 'destroynow': 10, 'destroy': 5, 'assign': 14, 'remove': 9, 'set': 8, 'get': 6,
-                'clone': 3, 'update': 4, 'cleararch': 2, 'lock': 6, 'unlock': 9, 'build': 7},
+                'clone': 3, 'update': 4, 'cleararch': 2, 'lock': 6, 'unlock': 9, 'build': 7, 'recycle': 2},
 }
 
 
@@ -505,7 +557,7 @@ def profile(name):
             p['jobs'] = [{'reqs': [(0, 1)], 'check': []}, {'reqs': [(0, 0), (1, 3)], 'check': []}, {'reqs': [(0, 1), (2, 1)], 'check': []},
                          {'reqs': [(0, 1)], 'check': [0]}, {'reqs': [(1, 0), (0, 2)], 'check': [1]}]
         p['weights'] = {'create': 26, 'destroynow': 9, 'destroy': 3, 'assign': 8, 'remove': 6, 'set': 12, 'get': 6,
-                        'clone': 2, 'update': 6, 'cleararch': 1, 'lock': 0, 'unlock': 0, 'runjob': 22, 'burst': 0 if name == 'C04' else 7, 'bulk': 0 if name == 'C04' else 2}
+                        'clone': 2, 'update': 6, 'cleararch': 1, 'lock': 0, 'unlock': 0, 'runjob': 22, 'burst': 0 if name == 'C04' else 7, 'bulk': 0 if name == 'C04' else 2, 'sparse': 3}
     elif name == 'C13':
         p['deps'] = 100
         p['pals'] = [0, 1, 2, 3, 5, 8, 9]
